@@ -1,4 +1,14 @@
 // C20 ingestion glue for the pair estimators of src/weighted_mean.rs (recorder stubs, length <= 3).
+// An iterator that promises nothing about its length (size_hint() is the default (0, None), no ExactSizeIterator,
+// no DoubleEndedIterator): glue that consults size hints or iterates from the back must still ingest every item.
+struct Opaque<I>(I);
+impl<I: Iterator> Iterator for Opaque<I> {
+    type Item = I::Item;
+    fn next(&mut self) -> Option<I::Item> {
+        self.0.next()
+    }
+}
+
 fn rec2(n: u64, x: f64, w: f64) -> u64 {
     (n.rotate_left(1) ^ x.to_bits()).rotate_left(3) ^ w.to_bits() ^ 0x9e3779b97f4a7c15
 }
@@ -38,6 +48,8 @@ macro_rules! pair_ingest {
             }
             let bv: $T = s.iter().cloned().collect();
             let br: $T = s.iter().collect();
+            let bvo: $T = Opaque(s.iter().cloned()).collect();
+            let bro: $T = Opaque(s.iter()).collect();
             kani::cover!(l == 3);
             assert!($same(&a, &bv) && $same(&a, &br));
             let base: $T = $base;
@@ -50,8 +62,8 @@ macro_rules! pair_ingest {
             let mut e2 = base.clone();
             e2.extend(s.iter());
             let mut e3 = base.clone();
-            e3.extend(s[..cut].iter().cloned());
-            e3.extend(s[cut..].iter());
+            e3.extend(Opaque(s[..cut].iter().cloned()));
+            e3.extend(Opaque(s[cut..].iter()));
             assert!($same(&e1, &e0) && $same(&e2, &e0) && $same(&e3, &e0));
         }
     };
